@@ -22,6 +22,6 @@ macro_rules! props {
     };
 }
 
-props!(c01, c02, c03, c04, c05, c06, c07, c08, c09, c10, c11, c12, c13, c14, c15, c16, c17);
+props!(c01, c02, c03, c04, c05, c06, c07, c08, c09, c10, c11, c12, c13, c14, c15, c16, c17, c18);
 
 pub fn gen_corpus(_dir: &str) {}
